@@ -98,6 +98,7 @@ func runProp(id string, f checkFunc, tier, repo, verif, goarch string, seed int,
 		return 2
 	}
 	r.count("package_functions", len(p.Funcs))
+	deep = tier == "thorough"
 	f(p, r)
 	extra := map[string]any{}
 	if tier == "thorough" {
